@@ -350,6 +350,15 @@ func createIdentOK(e *env, p *v1.Pod) bool {
 	if ow == nil || ow.UID != set.UID || ow.Kind != "StatefulSet" || ow.Name != set.Name {
 		return false
 	}
+	ctrl := 0
+	for _, r := range p.OwnerReferences {
+		if r.Controller != nil && *r.Controller {
+			ctrl++
+		}
+	}
+	if ctrl != 1 || len(p.OwnerReferences) != 1 || p.Namespace != ns || p.UID != "" || p.ResourceVersion != "" {
+		return false
+	}
 	// volumes of the template that are not claim templates are preserved
 	found := false
 	for _, v := range p.Spec.Volumes {
@@ -504,7 +513,7 @@ func newEnv(sc *Scenario) *env {
 		kobjs = append(kobjs, sc.API.Revs[i].object(e.base))
 	}
 	for _, c := range sc.API.Claims {
-		kobjs = append(kobjs, claimObject(c))
+		kobjs = append(kobjs, claimObjectIn(&sc.API, c))
 	}
 	aobjs := []runtime.Object{}
 	if sc.API.Set != nil {
@@ -542,7 +551,7 @@ func newEnv(sc *Scenario) *env {
 		e.podIndexer().Add(sc.Cache.Pods[i].object(app))
 	}
 	for _, c := range sc.Cache.Claims {
-		e.pvcIndexer().Add(claimObject(c))
+		e.pvcIndexer().Add(claimObjectIn(&sc.Cache, c))
 	}
 	return e
 }
